@@ -480,6 +480,24 @@ impl Check for C04 {
         "C04"
     }
 
+    fn declared_probes(&self) -> Vec<&'static str> {
+        vec![
+            "fault.capacity-lowered-below-size",
+            "fault.capacity-set-to-exactly-full",
+            "fault.iterator-overrun",
+            "fault.push-on-full",
+            "fault.push-on-overfull",
+            "fault.push_many-huge-range",
+            "fault.push_many-overflow",
+            "fault.underflow",
+            "probe.bulk-overflow-by-exactly-one",
+            "probe.len-plus-size-overflows-usize",
+            "probe.try_extend-reversed>=2",
+            "probe.try_extend-rollback-after-moved-items",
+            "probe.underflow-by-exactly-one",
+        ]
+    }
+
     fn rule(&self) -> String {
         "seeded histories of <= 40 stack operations (swarm-weighted op mix, capacities 0..=6 / 64 / usize::MAX, \
          element types usize and String); a history is non-trivial iff >= 1 fault fired (overflow, underflow, \
